@@ -186,10 +186,14 @@ theorem createArchive_conforms (H : Bytes → Bytes) (hH : ∀ x, (H x).length =
   have hver := dict_version H writer comp o src
   have hcc := dict_compr H writer comp o src
   have harch := createArchive_eq H writer comp o src
+  -- the chunks in rebuild order add up to the source (what the reader checks since the F18 repair)
+  have hsumW : ((dictionaryOf H writer comp o src).1.rebuildOrder.map (fun i =>
+      ((dictionaryOf H writer comp o src).1.chunkDescriptors[i]?.map (·.sourceSize)).getD 0)).sum = src.length :=
+    (writer_invariants H writer hw comp o hv src hinj).2.2.2.2.2.1
   rw [harch] at hfit ⊢
   generalize dictionaryOf H writer comp o src = DD at *
   obtain ⟨dict, stored⟩ := DD
-  simp only at hds hst hord htot hck hpar hmeta hver hcc hfit ⊢
+  simp only at hds hst hord htot hck hpar hmeta hver hcc hfit hsumW ⊢
   subst hst
   generalize storedBytes writer (codecOf o comp) = f at *
   generalize hD : dedup H (srcChunks o.cfg src) = D at *
@@ -245,6 +249,8 @@ theorem createArchive_conforms (H : Bytes → Bytes) (hH : ∀ x, (H x).length =
         rw [hord] at hi
         rw [hds, descrFrom_length]
         exact inv.order_lt i hi)
+      (by rw [paramsOf_hashLen]; exact ⟨hn1, hn64⟩)
+      (by rw [hsumW, htot])
       (by
         intro cd hcd
         rw [hds] at hcd
